@@ -238,7 +238,9 @@ impl StateSpace for RealVectorStateSpace {
         for i in 0..self.dimension {
             let (lower, upper) = self.bounds[i];
 
-            if !lower.is_finite() || !upper.is_finite() {
+            // The width has to be finite too: `random_range` panics on finite bounds whose difference
+            // overflows (e.g. -1e308..1e308).
+            if !lower.is_finite() || !upper.is_finite() || !(upper - lower).is_finite() {
                 return Err(StateSamplingError::UnboundedDimension { dimension_index: i });
             }
             if lower >= upper {
